@@ -62,6 +62,9 @@ def instances(tier, seed):
               ode_broadcast={0: Pg('a') * t}, note='scalar right-hand side for a vector state')
     for method, intg in (('MS', 'rk'), ('SS', 'expl_euler')):
         add(fam.with_horizon(sb, H[1]), Cfg(method, N=2, M=2, intg=intg, grid=fam.G_UNI))
+    # the horizon changed after a first transcription (set_t0/set_T on a transcribed OCP): node and stage times are those of the final horizon
+    for mi, (method, intg) in enumerate((('MS', 'rk'), ('SS', 'rk'), ('MS', 'expl_euler'))):
+        add(fam.with_horizon(core[mi % len(core)], (('num', Fr(1, 2)), ('num', Fr(2)))), Cfg(method, N=2, M=2, intg=intg, grid=[fam.G_UNI, fam.G_GEO_LOC][mi % 2]), rehorizon=(Fr(0), Fr(1)))
     for s in dcore:
         for method in ('MS', 'SS'):
             h = H[n % len(H)]
@@ -109,7 +112,11 @@ def time_dependent(spec):
 
 def run(item):
     spec, cfg = item['spec'], item['cfg']
-    inst = Inst(spec, cfg, seed=item.get('seed', 0), poly=item.get('poly', False))
+    built = None
+    if item.get('rehorizon'):
+        from .common import rehorizon_built
+        built = rehorizon_built(spec, cfg, item['rehorizon'], poly=item.get('poly', False))
+    inst = Inst(spec, cfg, seed=item.get('seed', 0), poly=item.get('poly', False), built=built, solver=built is None)
     ch = Checker(inst)
     viol = []
     doms = inst.domains()
